@@ -22,7 +22,7 @@ RULE = (
     "seeded lenient spellings through: emit(parse_with_warnings(x)) [every case]; octave_validate(content).canonical fed "
     "back; octave_write(content) then normalize mode (diff 'No changes', same hash, same bytes) and changes mode (DELETE of one top-level field, result again a fixed point); CLI normalize / validate "
     "--stdin / write --stdin via click's CliRunner [every 4th document]. (ii) every sequence of <=3 (thorough <=4) lexemes over "
-    "a 32-lexeme alphabet, joined with and without spaces, as `K::<seq>`, kept when the lenient reader accepts it. Oracle: "
+    "a 32-lexeme alphabet, joined with and without spaces, as `K::<seq>` and (<=3 lexemes) as list content `K::[<seq>]`, kept when the lenient reader accepts it. Oracle: "
     "the canonical text is accepted by strict parse() and canonicalising it again returns identical bytes. Non-trivial: "
     "document of depth>=2 or with a list/expression/annotation/number/comment/zone value, or token sequence of >=2 lexemes "
     "that the reader accepts; distinct by input text."
@@ -76,8 +76,12 @@ def classify(c1: str, kind: str, pipeline: str, second: str | None = None) -> st
     from octave_mcp import emit, parse
 
     if kind in ("reread-rejected", "not-idempotent"):
-        if re.search(r"(?m)(?:::|[\[,]|[→⊕⧺⇌∧∨@§])-?inf(?:$|[\],→⊕⧺⇌∧∨@])", c1):
+        if re.search(r"(?m)(?:::|[\[,]|^\s+|[→⊕⧺⇌∧∨@§])-?inf(?:$|::|[\],→⊕⧺⇌∧∨@])", c1):
             return "C01:nonfinite-number-emitted"
+        if re.search(r"∧\]", c1):
+            # a degenerate holographic pattern (constraint operator with nothing after it) is re-emitted from a token
+            # reconstruction that does not re-read as the same value
+            return "C01:degenerate-holographic-pattern-reconstruction"
         if re.search(r"(?m)^META:\n(?:  .*\n)*?  [A-Za-z_][\w.-]*::`{3,}", c1):
             return "C01:literal-zone-in-meta-emitted-inline"
         if "\r" in c1 and pipeline in FILE_PIPELINES:
@@ -169,6 +173,22 @@ def tool_roundtrips(text: str, lenient: bool, root: str):
         elif b2 != b1 or n.get("canonical_hash") != w.get("canonical_hash") or n.get("diff") != "No changes":
             out.append((classify(b1.decode("utf-8"), "not-idempotent", "write-normalize", b2.decode("utf-8")),
                         f"normalize mode changed a canonical file: diff={n.get('diff')!r} before={b1!r} after={b2!r}"))
+        # ---- the same canonical text stored with CRLF line endings: after octave_write(normalize) the file must be the
+        #      canonical (LF) text whose hash is returned — a file the strict reader accepts
+        if b"\r" not in b1:
+            pcr = os.path.join(root, "crlf.oct.md")
+            with open(pcr, "wb") as fh:
+                fh.write(b1.replace(b"\n", b"\r\n"))
+            ncr = tools.write(target_path=pcr)
+            if ncr.get("status") == "success":
+                with open(pcr, "rb") as fh:
+                    bcr = fh.read()
+                import hashlib as _h
+
+                if bcr != b1 or _h.sha256(bcr).hexdigest() != ncr.get("canonical_hash"):
+                    res = check_canonical(bcr.decode("utf-8"), "write-normalize-crlf", b1.decode("utf-8"))
+                    out.append(res[1:] if res[0] == "fail" else ("C01:unlisted:write-normalize-crlf:file-differs-from-returned-hash",
+                                                                  f"normalize of a CRLF copy of a canonical file: file bytes {bcr[:60]!r}... do not hash to canonical_hash / differ from the canonical text"))
         # ---- changes mode: delete one top-level field; what octave_write leaves must again be a fixed point
         try:
             from octave_mcp import parse as _parse
@@ -266,8 +286,9 @@ def shard(ctx: Ctx, sh: int, nshards: int, per_shard: int) -> Stats:
 
 
 # ------------------------------------------------------------------------------------------------ token sequences
-def _seq_text(tup, spaced: bool) -> str:
-    return "===D===\nK::" + (" " if spaced else "").join(tup) + "\n===END===\n"
+def _seq_text(tup, spaced: bool, bracket: bool = False) -> str:
+    body = (" " if spaced else "").join(tup)
+    return "===D===\nK::" + ("[" + body + "]" if bracket else body) + "\n===END===\n"
 
 
 def shard_tokens(ctx: Ctx, sh: int, nshards: int, max_len: int, sample: int) -> Stats:
@@ -276,8 +297,8 @@ def shard_tokens(ctx: Ctx, sh: int, nshards: int, max_len: int, sample: int) -> 
     st = Stats()
     n = len(LEXEMES)
 
-    def run_one(tup, spaced, exact):
-        text = _seq_text(tup, spaced)
+    def run_one(tup, spaced, exact, bracket=False):
+        text = _seq_text(tup, spaced, bracket)
         res = api_roundtrip(text, "tokens")
         acc = res[0] != "rejected"
         nt = acc and len(tup) >= 2
@@ -291,7 +312,7 @@ def shard_tokens(ctx: Ctx, sh: int, nshards: int, max_len: int, sample: int) -> 
         else:
             st.case({"text": text}, nontrivial=nt, labels=["tokseq5_accepted" if acc else "tokseq5_rejected"])
         if res[0] == "fail":
-            st.fail(res[1], {"tokens": list(tup), "spaced": spaced}, res[2])
+            st.fail(res[1], {"tokens": list(tup), "spaced": spaced, "bracket": bracket}, res[2])
 
     i = 0
     for ln in range(1, max_len + 1):
@@ -302,6 +323,8 @@ def shard_tokens(ctx: Ctx, sh: int, nshards: int, max_len: int, sample: int) -> 
             run_one(tup, False, True)
             if ln > 1:
                 run_one(tup, True, True)
+            if ln <= 3:  # the same sequence as the content of a list: K::[<seq>]
+                run_one(tup, False, True, True)
     if sample:
         rnd = random.Random(ctx.shard_seed(sh, 5))
         for _ in range(sample // nshards):
@@ -314,7 +337,7 @@ def shard_tokens(ctx: Ctx, sh: int, nshards: int, max_len: int, sample: int) -> 
 # ------------------------------------------------------------------------------------------------ module interface
 def check_case(case) -> list[Failure]:
     if "tokens" in case:
-        res = api_roundtrip(_seq_text(tuple(case["tokens"]), case["spaced"]), "tokens")
+        res = api_roundtrip(_seq_text(tuple(case["tokens"]), case["spaced"], case.get("bracket", False)), "tokens")
         return [Failure(res[1], case, res[2])] if res[0] == "fail" else []
     text, info = docprop.render_case(case["doc"], case["sp"])
     return [Failure(s, case, d) for s, d in oracle(case["doc"], case["sp"], text, info, with_tools=True)]
